@@ -36,7 +36,9 @@ def grids_nd(ctx):
           ((1.0, 1.0), (3, 4), 0), ((12.836,) * 3, (6, 6, 6), 1), ((1.0, 1.0), (2, 2), 1), ((1.0,), (5,), 2),
           ((1.0, 1.0), (1, 3), 1), ((1.0, 1.0, 1.0), (7, 7, 7), 2),
           # cubic cells in a non-cubic box: equal side lengths, unequal counts, side length not a dyadic fraction
-          ((1.0, 2.0), (3, 6), 1), ((2.0, 1.0), (6, 3), 1), ((1.0, 2.0, 3.0), (3, 6, 9), 1)]
+          ((1.0, 2.0), (3, 6), 1), ((2.0, 1.0), (6, 3), 1), ((1.0, 2.0, 3.0), (3, 6, 9), 1),
+          # neighbour layers that wrap round the box more than once; a first side much longer than the others
+          ((1.0, 1.0), (1, 3), 2), ((1.0, 1.0), (2, 5), 3), ((2.5, 1.0), (5, 4), 1), ((3.0, 1.0, 1.5), (4, 3, 2), 1)]
     if ctx.thorough:
         gs += [((1.0, 1.0, 1.0), (5, 6, 7), 2), ((3.0, 1.0, 2.0), (7, 2, 5), 1), ((1.0, 1.0), (9, 8), 3),
                ((1.0, 1.0, 1.0), (4, 4, 4), 1), ((1.0, 1.0, 1.0), (2, 3, 4), 0), ((10.0, 10.0), (16, 12), 2),
